@@ -94,6 +94,8 @@ def history(ctx, dag, cells, fill_bits, fill_refs, t, ops=None):
     pre = ([f'b:{"0" * fill_bits}'] if fill_bits else []) + [f'r:0'] * fill_refs
     if ops is None:
         ops = [rand_store(rng, len(cells), dag) for _ in range(rng.randrange(1, 9))]
+        if rng.random() < 0.3:      # end_cell() in the middle of the history (result dropped): later stores must still count
+            ops.insert(rng.randrange(len(ops) + 1), 'ec')
     inp = {'dag': [list(n) for n in dag], 'prefill': [fill_bits, fill_refs], 'ops': ops}
     ctx.case(('hist', fill_bits, fill_refs, tuple(ops)), sample={'fill': [fill_bits, fill_refs], 'ops': [o[:40] for o in ops[:5]]})
     b = Builder()
@@ -101,7 +103,7 @@ def history(ctx, dag, cells, fill_bits, fill_refs, t, ops=None):
     flags = ''
     for tok in ops:
         ub, ur = len(b.bits), len(b.refs)
-        want = fits(tok, cells, ub, ur, dag)
+        want = True if tok == 'ec' else fits(tok, cells, ub, ur, dag)
         f, _, _, _, _ = S.exec_builder(cells, [tok], b)
         flags += f
         kind = tok.split(':')[0]
@@ -120,6 +122,9 @@ def history(ctx, dag, cells, fill_bits, fill_refs, t, ops=None):
         fin = c.hash.hex()
         if len(c.bits) > 1023 or len(c.refs) > 4:
             ctx.fail('capacity:cell', 'end_cell produced an oversize cell', inp, [len(c.bits), len(c.refs)], None)
+        if c.bits.to01() != b.bits.to01() or [r.hash for r in c.refs] != [r.hash for r in b.refs]:
+            ctx.fail('end_cell:stale', 'end_cell() does not hold the bits / references the builder holds now', inp,
+                     [c.bits.to01()[:64], len(c.refs)], [b.bits.to01()[:64], len(b.refs)])
     except Exception:
         fin = 'err'
         ctx.fail('end_cell', 'end_cell raised although the builder is within capacity', inp, 'exception', 'cell')
@@ -214,7 +219,7 @@ def run(ctx):
     for nrefs in range(0, 5):
         for kind in ('lr', 'pr', 'lmr', 'pmr', 'ld'):
             overread_refs(ctx, nrefs, kind)
-    dag = LEAF_DAG + [(G.ORD, '0' * 1023, (0, 1, 2, 3)), (G.ORD, '10', (0,))]
+    dag = LEAF_DAG + [(G.ORD, '0' * 1023, (0, 1, 2, 3)), (G.ORD, '10', (0,)), (G.ORD, '', (0, 1))]      # last: no data bits, two references
     cells = G.lib_build(dag)
     fills = [0, 1, 500] + list(range(1015, 1024))
     for t in range(ctx.n(100, 400)):
